@@ -56,7 +56,7 @@ fn run_set<S: PS>(ctx: &Ctx) -> Acc {
     let mut acc = Acc::new();
     let mut g = Prng::derive(ctx.seed, &format!("c12-{}", p.name), 0);
     let (_, sk) = S::keygen_seed(&g.arr32());
-    let entries: Vec<Entry> = vec![Entry::KeygenFn, Entry::KeygenTrait, Entry::Sign(Mode::Pure), Entry::Sign(Mode::Sha256), Entry::Sign(Mode::Sha512), Entry::Sign(Mode::Shake128), Entry::Dudect];
+    let entries: Vec<Entry> = vec![Entry::KeygenFn, Entry::KeygenTrait, Entry::Sign(Mode::Pure), Entry::Sign(Mode::Sha256), Entry::Sign(Mode::Sha512), Entry::Sign(Mode::Shake128), Entry::Dudect].into_iter().filter(|e| *e != Entry::Dudect || S::HAS_DUDECT).collect();
     let kinds = [FaultKind::Before, FaultKind::AfterPartial(1), FaultKind::AfterPartial(16), FaultKind::AfterPartial(31), FaultKind::AfterFull];
     let m = g.bytes(20);
     let cx = g.bytes(5);
@@ -240,7 +240,7 @@ fn run_set<S: PS>(ctx: &Ctx) -> Acc {
     // call returns Err without asking the generator again, so a generator that would fail on a second
     // request is never reached. (A retry with fresh randomness on exhaustion would show a second request,
     // and with a failing second request possibly a signature made from a half-written buffer.)
-    if S::SET == 44 {
+    if S::SET == 44 && !ctx.checked_build() {
         let n = ctx.budget(48, 384) as usize;
         // batches are repeated (new keys) until at least one call ran out of iterations (about 5 % do)
         for batch in 0..10u64 {
